@@ -134,6 +134,24 @@ def check(col, prog, tier, profile, fixture=None):
             nm = b.name
             imp = crate.impl_of(b)
             trait = ((imp or {}).get("trait") or "").split("::")[-1]
+            if b.vis != "pub" and not (imp or {}).get("of_trait") and nm not in SPEC_BIN and nm not in ("min", "max", "lt", "le", "from"):
+                # an asm body moved into a private helper: it is specified by the one public operation that hands its
+                # own operands over in order and returns the helper's result
+                fronts = []
+                for cb_ in crate.bodies:
+                    if cb_.is_closure or cb_.key == b.key or not util.calls_to(cb_, b.key):
+                        continue
+                    Ic_ = util.analyse(cb_)
+                    through = bool(Ic_.final_states)
+                    for st_ in Ic_.final_states:
+                        ce = [e for e in util.events_of(st_, "call") if (e.fn.get("resolved") or e.fn).get("def") == b.key]
+                        want_args = tuple(("param", i + 1, Ic_.names.get(i + 1)) for i in range(b.arg_count))
+                        through = through and len(ce) == 1 and tuple(ce[0].args) == want_args and util.ret_term(st_) == ce[0].res and cb_.arg_count == b.arg_count
+                    fronts.append((cb_, through))
+                if len(fronts) == 1 and fronts[0][1]:
+                    fb_ = fronts[0][0]
+                    nm = fb_.name
+                    trait = ((crate.impl_of(fb_) or {}).get("trait") or "").split("::")[-1]
             P1, P2 = 1, 2
 
             def sym(v):
@@ -225,7 +243,10 @@ def check(col, prog, tier, profile, fixture=None):
         for b_ in crate.bodies:
             imp_ = crate.impl_of(b_)
             if imp_ is not None and (imp_.get("trait") or "").split("::")[-1] == tr_ and b_.name == nm_ and imp_["self_ty"] == "f80":
-                ob = b_
+                # the by-value operator is the one specified; reference forms added beside it are extra API
+                byref = "&f80>" in b_.path
+                if ob is None or not byref:
+                    ob = b_
         if ob is None:
             col.violation("X1" + sfx, "f80|%s|missing" % tr_, "-", "f80 does not implement %s" % tr_)
             continue
